@@ -122,6 +122,6 @@ instance (d : QueryDoc) : Decidable (Formattable d) := by unfold Formattable; in
 
 /-- the indentation strings covered: any sequence of ignored single bytes (TAB, LF, CR, space,
     comma), the empty string included -/
-def BlankIndent (cfg : Cfg) : Prop := AllBlank cfg.indent
+def BlankIndent (cfg : Cfg) : Prop := AllIgnored cfg.indent
 
 end Gql.Format
